@@ -69,3 +69,15 @@ Proof. exact ex_disconnected_granular. Qed.
    same reference errors in the same order and the same set of unjoinable pairs on every scenario. *)
 Theorem C20_validate_table : forallb validate_row_ok validate_rows = true.
 Proof. vm_compute. reflexivity. Qed.
+
+Require V.Model.SmallFns V.Gen.Small_gen V.Proofs.Small_proofs.
+
+(* granularity references as the validator and the generator read them (regenerated table, see Props/C07.v): p__g is (p, g) for ANY p when g is a word -- and so a
+   dimension whose own name contains "__" can never be referenced without a granularity (the listed class C20-K6). *)
+Theorem C20_dimref_table : forallb V.Model.SmallFns.dimref_row_ok V.Gen.Small_gen.dimref_rows = true.
+Proof. exact V.Proofs.Small_proofs.dimref_table_ok. Qed.
+Theorem C20_dimref_roundtrip : forall p g, V.Model.SmallFns.all_chars V.Proofs.Small_proofs.is_letter g = true ->
+  V.Model.SmallFns.parse_dimref (p ++ "__" ++ g)%string = (p, Some g).
+Proof. exact V.Proofs.Small_proofs.parse_dimref_roundtrip. Qed.
+Example C20_dunder_name_refuted : V.Model.SmallFns.parse_dimref "o1.d__x" = ("o1.d"%string, Some "x"%string).
+Proof. vm_compute. reflexivity. Qed.
